@@ -383,12 +383,14 @@ func splitTop(s string, sep byte) []string {
 //   forall x T :: body             __forallT(func(x T) bool { return body })
 //   old(e)           __old(e)
 var resultOfRe = regexp.MustCompile(`\bresult_of\(\s*([0-9]+)\s*,\s*([A-Za-z_][A-Za-z0-9_]*)\s*\)`)
+var resultOfIdxRe = regexp.MustCompile(`\bresult_of\(\s*([0-9]+)\s*,\s*([A-Za-z_][A-Za-z0-9_]*)\s*,\s*([0-9]+)\s*\)`)
 var argOfRe = regexp.MustCompile(`\barg_of\(\s*([0-9]+)\s*,\s*([A-Za-z_][A-Za-z0-9_]*)\s*,\s*([0-9]+)\s*\)`)
 var beforeRe = regexp.MustCompile(`\bbefore\(([A-Za-z_][A-Za-z0-9_]*)\)`)
 
 func rewriteSpec(s string) string {
 	// before(x): the value a scalar local had at the clause's "since" snapshot
 	s = beforeRe.ReplaceAllString(s, "before_$1")
+	s = resultOfIdxRe.ReplaceAllString(s, "resultofi_${1}_${3}_$2")
 	s = resultOfRe.ReplaceAllString(s, "resultof_${1}_$2")
 	s = argOfRe.ReplaceAllString(s, "argof_${1}_${3}_$2")
 	s = strings.ReplaceAll(s, "old(", "__old(")
